@@ -358,6 +358,10 @@ where
         let (write_half, read_half) = Self::split_stream(stream);
         self.write_half = write_half;
         self.read_half = read_half;
+
+        // The previous reply reader owns the old read half, which ended with its connection:
+        // replies on the new stream need a reader of their own
+        poll_replies(self.read_half.clone(), self.pending_requests.clone());
     }
 
     fn get_connection(&self) -> SharedConnection {
